@@ -49,6 +49,8 @@ type crashProgram struct {
 	// transactions (clean restarts inside the run: crash points fall into Close and into the
 	// recovery of a directory with history)
 	RestartEvery int
+	// TsBase > 0: the directory starts with a history (one planted table at that version)
+	TsBase uint64
 }
 
 const delMark = "\x00<del>"
@@ -165,7 +167,11 @@ func genProgram(seed int64, flavour string, drained bool, writers int, ntx int) 
 }
 
 func programFromCase(c core.Case) crashProgram {
-	return genProgram(c.Int("pseed", 1), c.Str("flavour", "plain"), c.Int("drained", 1) == 1, int(c.Int("writers", 1)), int(c.Int("ntx", 40)))
+	p := genProgram(c.Int("pseed", 1), c.Str("flavour", "plain"), c.Int("drained", 1) == 1, int(c.Int("writers", 1)), int(c.Int("ntx", 40)))
+	if tb := int(c.Int("tsbase", 0)); tb > 0 {
+		p.TsBase = eng.TsBases[(tb-1)%len(eng.TsBases)]
+	}
+	return p
 }
 
 // ------------------------------------------------------------------------------------------------
@@ -287,6 +293,11 @@ func crashRunMain(args []string) int {
 	dir, side := args[0], args[1]
 	p := readProgramFile(args[2])
 	at, _ := strconv.Atoi(args[3])
+	if p.TsBase > 0 {
+		if es, _ := os.ReadDir(dir); len(es) == 0 {
+			eng.PlantTimestamp(dir, p.Cfg, p.TsBase) // before the kill counter starts
+		}
+	}
 	installKill(dir, side, at, "workload")
 	if p.SlowFlusher {
 		// the flusher lags behind: rotated memtables queue up and Close finds flushes pending
@@ -1142,6 +1153,9 @@ func genCrash(focus, tier string, seed int64) []core.Case {
 			c := core.Case{ID: fmt.Sprintf("p%02d-o%02d", pi, off), Kind: "crash", Seed: pseed,
 				S: map[string]string{"flavour": s.flavour},
 				N: map[string]int64{"pseed": pseed, "drained": s.drained, "writers": s.writers, "ntx": s.ntx, "offset": int64(off), "stride": int64(s.stride), "seqevery": seqEvery, "depth3": depth3}}
+			if pi%3 == 1 {
+				c.N["tsbase"] = int64(1 + (pi/3)%5)
+			}
 			if focus == "C14" {
 				c.N["images"] = 1
 				c.N["seqevery"] = 16
